@@ -15,7 +15,8 @@ RULE = ("A history (3-25 operations, drawn and shrunk as one list) over {train()
         "using_cache=False, loaded with the subject's current state_dict() and dtype, returns the same outputs and log-dets "
         "(1e-10 relative in float64, 2e-5 in float32); anything the twin supports (repeated backward, dtype change) must "
         "not raise on the subject; input gradients agree. Non-trivial: a parameter-changing step (SGD/load/dtype) happens "
-        "after a cached call and before another call. Distinct = distinct case JSON.")
+        "after a cached call and before another call. Calls also on single rows and non-square images; results may be modified in place by "
+        "the caller (as coupling layers do) without raising and without reaching the cache. Distinct = distinct case JSON.")
 ASSUMPTIONS = ["parameter updates are generated only in training mode (the property lists 'parameter update in training mode')",
                "the twin is built through the public constructor + load_state_dict only"]
 EXPLANATION = "generated histories; not exhaustive"
